@@ -3,7 +3,7 @@ explored by BFS and every edge judged by TLC (Trace_GuardLoop); TLC -simulate be
 import concurrent.futures as cf
 from . import base, guard
 
-CLAUSES = {"NoEarlyTrip", "TripsByThreshold", "Isolation", "ProbeAdmitted", "ProbeSuccessCloses", "ProbeFailureReopens",
+CLAUSES = {"NoRaise", "NoEarlyTrip", "TripsByThreshold", "Isolation", "ProbeAdmitted", "ProbeSuccessCloses", "ProbeFailureReopens",
            "BlocksNotFailures", "DisabledNeverOpen", "NoRaise"}
 LOGICS = ["and", "or", "executor_priority", "assessor_priority", "unanimous", "majority"]
 
